@@ -4,13 +4,13 @@ PROP = {
     "level": "proof",
     "harness_cmd": "c16",
     "run_file": "Run/C16Run.v",
-    "obligation_files": ["Props/C16.v", "Syn/Qualify.v", "Syn/QualifyProofs.v", "Syn/Full.v", "Syn/FullRel.v", "Syn/FullProofs.v", "Syn/QualifyFull.v", "Syn/QualifyFullProofs.v"],
+    "obligation_files": ["Props/C16.v", "Syn/Qualify.v", "Syn/QualifyProofs.v", "Syn/Full.v", "Syn/FullRel.v", "Syn/FullProofs.v", "Syn/FullSound.v", "Syn/QualifyFull.v", "Syn/QualifyFullProofs.v"],
     "count_lists": {"c16_counts": ["S_compared", "S_skipped_unsupported", "S_skipped_out_of_fuel", "S_skipped_laziness"]},
     "trusted_base": [KERNEL, TABLES, HARNESS, NOAX,
                      "modelled, not verified: the parser model coq/Syn/Parse.v (Identifiers chain with AddMap / AddArgs / AddThis layers as a scope stack with a pure lookup; OuterIdents and Recursive as functions of the lookups that reach a layer) is tied to the implementation AST-for-AST on both texts of every case; the reference semantics coq/Sem/Ref.v is C01's",
                      "the qualified program is computed by the harness on its own surface tree (free identifier = not bound by let/func/closure parameter, not pi/true/false, not a static function) and rendered with every attribute as (m.x); the Coq definition free_attr / qualify is the same rule on the scope stack without the AddMap layer"],
     "assumptions": ["the map name m is not rebound inside the program and is not the empty string",
-                    "theorem C16_withmap_is_qualify covers the full grammar (rendering trees of Syn/Full.v: let/func/if/switch/try/closures/list and map literals) under every stack of enclosing binders; it is stated on well-formed rendering trees (fwf) - that every text the parser accepts is such a rendering is proved for the expression fragment only (C03_parse_sound) and otherwise checked by the correspondence run",
+                    "theorem C16_withmap_is_qualify covers the full grammar (rendering trees of Syn/Full.v: let/func/if/switch/try/closures/list and map literals) under every stack of enclosing binders; C16_withmap_is_qualify_tokens starts from the token list: every token list the parser accepts is the rendering of a tree (C03_parse_sound_full)",
                     "an attribute x is written ( m . x ) with parentheses: m.x(args) would be a method call while x(args) in implicit-attribute mode is a call of the attribute's value",
                     "programs that redeclare a name inside one function body are excluded from the reference-semantics comparison as in C01 (AST equality and outcome equality of the two functions are still checked)"],
     "residue": "",
